@@ -193,6 +193,9 @@ int flush_pubsub_msgs(void *data, const char *key, void *value) {
         m_queue_t *batched = mod->batch.events;
         mod->batch.events = flushed;
         flushed = batched;
+    } else if (!tell) {
+        /* Events still being batched are discarded together with the messages still in the pipe */
+        m_queue_clear(mod->batch.events);
     }
 
     while (mod->pubsub_fd[0] != -1 &&
